@@ -1,3 +1,3 @@
-from . import hirprops
+from . import emitprops
 def run(tier, seed):
-    return hirprops.run('C05', tier, seed)
+    return emitprops.run('C05', tier, seed, also_hir=True)
